@@ -984,7 +984,9 @@ class OptionStore:
         the library directory relative to prefix, even though it really
         should not be relied upon.
         '''
-        if not isinstance(value, str):
+        if not isinstance(value, str) or value == '' or not option.name.endswith('dir'):
+            # Only directory options are paths; an empty string stays empty
+            # (PurePath('') is '.').
             return value
         path = self.pure_path_class(value)
         if option.name.endswith('dir') and path.is_absolute() and \
